@@ -434,7 +434,13 @@ class FormulaMaterializer(metaclass=FormulaMaterializerMeta):
                 for factor in term.factors
                 if self.factor_cache[factor.expr].values.__wrapped__ is not None
             ]
-            if not evaled_factors:
+            if not evaled_factors or any(
+                evaled_factor.metadata.kind is Factor.Kind.CONSTANT
+                and evaled_factor.values == 0
+                for evaled_factor in evaled_factors
+            ):
+                # A term scaled by zero spans nothing, and in particular must
+                # not claim the scope of a later term (e.g. the intercept).
                 yield term, []
                 continue
 
